@@ -426,6 +426,14 @@ class Engine:
             return ('none',)
         raise OutOfReach('symbolic dict key %r' % (v,))
 
+    def assigned_on_self(self, cls, attr):
+        """does some method of the real class (or of a base class) assign self.<attr>?"""
+        for c in self.src.mro(cls):
+            for n in ast.walk(self.src.classes[c][1]):
+                if isinstance(n, ast.Attribute) and isinstance(n.ctx, ast.Store) and n.attr == attr and isinstance(n.value, ast.Name) and n.value.id == 'self':
+                    return True
+        return False
+
     def e_Attribute(self, e, st):
         return self.bind(self.ev(e.value, st), lambda st1, b: self.getattr(b, e.attr, st1, e))
 
@@ -439,6 +447,8 @@ class Engine:
             r = self.models.obj_attr(self, b, attr, st)
             if r is not None:
                 return r
+            if self.assigned_on_self(b.cls, attr):
+                return [(st, VInstanceState(b.cls, attr))]
             raise OutOfReach('attribute %s of %s' % (attr, b.cls))
         r = self.models.attr(self, b, attr, st)
         if r is None:
@@ -1116,6 +1126,9 @@ class Engine:
                                 if len(rest) >= 2 and rest[1]:
                                     # hints: facts that follow from definitions (each is an obligation of its own), then assumed
                                     for hi, h in enumerate(rest[1]):
+                                        if isinstance(h, prelude.DefInstance):
+                                            st2.assume(h.term)      # the defining equation itself, instantiated: nothing to prove
+                                            continue
                                         self.emit(st2, '%s/loop[%s]/preserve/%s/hint%d' % (fname, text, label, hi), h, kind='hint', tags=spec.tags)
                                         st2.assume(h)
                                 self.emit(st2, '%s/loop[%s]/preserve/%s' % (fname, text, label), cond, kind='loop-preserve', tags=spec.tags)
